@@ -10,7 +10,7 @@ from collections import Counter
 
 from dsim import core, refmodels
 from dsim.core import Result, Trace, canon, plain
-from dsim.seams import SimSolver, warm_up_solver
+from dsim.seams import SimSolver, LogSeam, warm_up_solver
 
 ID = "C17"
 LEVEL = "exploration"
@@ -49,6 +49,8 @@ COMPONENTS = {
 STATUSES = ["FEASIBLE", "NO_SOLUTION_FOUND", "ERROR", "INFEASIBLE", "UNBOUNDED", "INT_INFEASIBLE", "CUTOFF", "LOADED", "OTHER", "INF_OR_UNBD", "TRUNCATED"]
 
 _solver = SimSolver()
+_log = LogSeam()
+NOISE = "solver_x_within_integrality_tolerance"
 
 
 def prepare_parent():
@@ -130,6 +132,7 @@ def gen_plan(seed, tier):
             "out": r.choice(["PartitionAndSumsTuple", "PartitionAndSumsTuple", "PartitionAndSums", "Partition", "Sums"])}
     if plan["form"] in ("dict", "names"):
         plan["names"] = [f"n{j}" for j in range(n)]
+    plan["log"] = r.choice([None, None, None, None, None, "INFO", "DEBUG"])
     # an extra constraint (only for unweighted / uniform models: see DESIGN 5.2), c around reachable values
     if wm != "non-uniform" and r.random() < 0.45:
         cl = _copies_list(dict(plan, copies=1 if copies is None else copies))
@@ -151,6 +154,10 @@ def gen_plan(seed, tier):
         plan["solver"] = {"mode": "real"}
         if r.random() < 0.15:
             plan["time_limit"] = r.choice([1, 10, 1000])
+        if r.random() < 0.3:
+            # the solver proves optimality but, as MIP solvers do, returns the integer variables only up to its
+            # integrality tolerance (CBC: 1e-6): 0.9999999 for 1
+            plan["solver"]["x_noise"] = {"seed": r.getrandbits(31), "eps": r.choice([1e-9, 1e-7, 4e-7])}
     else:
         mode = r.choice(["real_then_status", "stub_status", "raise", "sim_timeout", "sim_timeout"])
         s = {"mode": mode}
@@ -341,6 +348,7 @@ def execute(plan, seed=0):
     tr = Trace()
     res.instance_key = "%016x" % core.H("c17", plan)
     _solver.install()
+    _log.configure(plan.get("log"))
     cache = {}
     s = plan["solver"]
     tr.add("plan", plan=plan)
@@ -361,7 +369,10 @@ def execute(plan, seed=0):
         res.fault(k_, v_)
     if _solver.calls == 0:
         raise RuntimeError("solver seam not reached: mip.Model.optimize was never called")
-    nontrivial = bool(fired) or bool(plan.get("prior")) or plan["copies"] not in (None, 1) or plan["weights"] is not None or plan["constraint"] is not None or plan["time_limit"] is not None
+    nontrivial = bool(fired) or bool(s.get("x_noise")) or bool(plan.get("prior")) or plan["copies"] not in (None, 1) or plan["weights"] is not None or plan["constraint"] is not None or plan["time_limit"] is not None
+    tolerance_noise = fired.pop(NOISE, 0)
+    if tolerance_noise:
+        res.probe("solution_read_back_within_integrality_tolerance")
     if fired:
         # fault arm: the solver did not prove optimality -> the call must raise, whatever else
         if outcome[0] == "ok":
@@ -374,7 +385,8 @@ def execute(plan, seed=0):
         v1 = _judge(plan, outcome, cache)
         if v1:
             # discriminator: the same request with CBC preprocessing off
-            outcome2 = _call(plan, {"mode": "real", "preprocess": 0})
+            noise = {"x_noise": s["x_noise"]} if s.get("x_noise") else {}
+            outcome2 = _call(plan, dict({"mode": "real", "preprocess": 0}, **noise))
             res.evaluations += 1
             v2 = _judge(plan, outcome2, cache)
             tr.add("recheck-preprocess-off", first=[c for c, _ in v1], second=[c for c, _ in v2], outcome=canon(outcome2[1]))
@@ -385,7 +397,7 @@ def execute(plan, seed=0):
                 for clause, det in v2:
                     res.violate(clause, with_preprocessing_off=True, first_attempt=[c for c, _ in v1], **det)
                 if any(c == "not-optimal" for c, _ in v2) and _weights_kind(plan) == "uniform":
-                    o3 = _call(plan, {"mode": "real", "preprocess": 0}, weights=None)
+                    o3 = _call(plan, dict({"mode": "real", "preprocess": 0}, **noise), weights=None)
                     res.evaluations += 1
                     p3 = dict(plan, weights=None)
                     v3 = _judge(p3, o3, {})
@@ -400,7 +412,8 @@ def execute(plan, seed=0):
     res.nontrivial = 1 if nontrivial else 0
     cm = "default" if plan["copies"] is None else ("n%d" % plan["copies"] if isinstance(plan["copies"], int) else "per_item")
     res.cells.append("|".join([cm, _weights_kind(plan), plan["constraint"]["kind"] if plan["constraint"] else "-",
-                               plan["objective"].split(":")[0], s["mode"], s.get("status", s.get("exc", s.get("late", "-")))]))
+                               plan["objective"].split(":")[0], s["mode"] + ("+noise" if s.get("x_noise") else ""),
+                               s.get("status", s.get("exc", s.get("late", "-")))]))
     return res.finish(tr)
 
 
@@ -433,6 +446,10 @@ def shrink_candidates(plan, clause):
         p = mk()
         p.pop("prior")
         yield p
+    if plan.get("log"):
+        yield mk(log=None)
+    if plan["solver"].get("x_noise"):
+        yield mk(solver={k: v for k, v in plan["solver"].items() if k != "x_noise"})
     if plan["form"] != "list":
         yield mk(form="list")
     if plan["out"] != "PartitionAndSumsTuple":
